@@ -1,5 +1,58 @@
 """Property-specific engines beyond the generic correspondence streams."""
+import os, re, subprocess
+
+ROOT = os.path.dirname(os.path.dirname(os.path.abspath(__file__)))
+COQ = os.path.join(ROOT, 'coq')
+WORK = os.path.join(ROOT, 'work')
+FLAGS = []
+for d in ['Base', 'Hash', 'Generated', 'Spec', 'Model', 'Proofs', 'Properties', 'Findings', 'Extract']:
+    FLAGS += ['-Q', d, 'OtpV']
+
+
+def flow_sites(log):
+    """leak sites of the regenerated SSA fact bases, evaluated inside Coq (independent of the theorems)"""
+    path = os.path.join(WORK, 'c09_sites.v')
+    with open(path, 'w') as f:
+        f.write('From Coq Require Import List String.\nFrom OtpV Require Import Flow SsaNative SsaWasm.\n'
+                'Definition native_sites := Eval vm_compute in site_names SsaNative.facts (search SsaNative.facts).\n'
+                'Definition wasm_sites := Eval vm_compute in site_names SsaWasm.facts (search SsaWasm.facts).\n'
+                'Definition sizes := Eval vm_compute in (List.length (f_edges SsaNative.facts), List.length (f_cmps SsaNative.facts), List.length (f_edges SsaWasm.facts), List.length (f_cmps SsaWasm.facts), PS.cardinal (c_hmac (search SsaNative.facts)), PS.cardinal (c_caller (search SsaNative.facts))).\n'
+                'Set Printing Width 100000. Set Printing Depth 100000.\nPrint native_sites. Print wasm_sites. Print sizes.\n')
+    p = subprocess.run(['coqc'] + FLAGS + [path], cwd=COQ, stdout=subprocess.PIPE, stderr=subprocess.STDOUT, text=True, timeout=900)
+    for ext in ('.vo', '.vok', '.vos', '.glob'):
+        try:
+            os.remove(path[:-2] + ext)
+        except OSError:
+            pass
+    log.write('--- c09 sites\n' + p.stdout[-3000:])
+    if p.returncode:
+        return None, None, None
+    def names(which):
+        m = re.search(which + r'\s*=\s*(.*?)\s*:\s*list string', p.stdout, re.S)
+        return re.findall(r'"((?:[^"]|"")*)"', m.group(1)) if m else None
+    m = re.search(r'sizes\s*=\s*\((.*?)\)\s*:', p.stdout, re.S)
+    sizes = [int(x) for x in re.findall(r'\d+', m.group(1))] if m else []
+    return names('native_sites'), names('wasm_sites'), sizes
 
 
 def extra_engines(pid, tier, seed, log, build_state):
-    return {}
+    if pid != 'C09':
+        return {}
+    nat, wasm, sizes = flow_sites(log)
+    out = {'violations': [], 'coverage': {}, 'samples': []}
+    if nat is None or wasm is None:
+        out['violations'].append({'case': '', 'kind': 'the SSA fact bases could not be analysed (Generated/SsaNative.v, SsaWasm.v, Model/Flow.v)', 'no_input': True})
+        return out
+    for build, sites in (('native', nat), ('js/wasm', wasm)):
+        for s_ in sites:
+            out['violations'].append({'case': '(flow, %s build) %s' % (build, s_), 'impl': 'HMAC-derived and caller-derived data meet here outside a constant-time comparison',
+                                      'model': 'no leak site', 'spec': '-', 'kind': 'leak site in the regenerated SSA facts', 'no_input': True})
+    if len(sizes) >= 6:
+        out['coverage'] = {'ssa_native_edges': sizes[0], 'ssa_native_comparisons': sizes[1], 'ssa_wasm_edges': sizes[2], 'ssa_wasm_comparisons': sizes[3],
+                           'hmac_derived_values_native': sizes[4], 'caller_derived_values_native': sizes[5], 'exhaustive': True}
+        out['evaluations'] = sizes[1] + sizes[3]
+        out['distinct_nontrivial'] = sizes[4]
+        out['rule'] = ' | C09: every comparison and every call leaving the analysed packages in both SSA fact bases is examined (exhaustive over the program text); non-trivial = HMAC-derived values reached'
+        out['samples'] = [{'native_edges': sizes[0], 'native_comparisons': sizes[1], 'wasm_edges': sizes[2], 'wasm_comparisons': sizes[3]}]
+    out['exhaustive'] = True
+    return out
